@@ -43,9 +43,12 @@ def make_model(rng, n_cond):
     if kind == 'fixed_int':
         # squared distances of points with whole-number coordinates, stored in an integer vector (the library's own tests
         # build fixed models from integer arrays)
-        pts = rng.integers(-3, 4, size=(n_cond, n_cond))
-        d = ((pts[:, None, :] - pts[None, :, :]) ** 2).sum(-1)
-        vec = d[np.triu_indices(n_cond, 1)].astype(np.int64)
+        while True:
+            pts = rng.integers(-3, 4, size=(n_cond, n_cond))
+            d = ((pts[:, None, :] - pts[None, :, :]) ** 2).sum(-1)
+            vec = d[np.triu_indices(n_cond, 1)].astype(np.int64)
+            if vec.min() > 0:       # distinct points (an all-zero model has no signal to draw afresh)
+                break
         return ModelFixed('fi', vec.copy()), None, vec.astype(float), kind
     if kind == 'fixed':
         return ModelFixed('fx', RDMs(basis[:1].copy())), None, basis[0], kind
